@@ -7,7 +7,7 @@ from ..predabs import Vocab, PredAbs, A, Not, And, Or, T, F
 from ..rules import common
 
 TITLE = "Timers never fire early, twice, or after a successful cancel"
-TECHNIQUE = 'custom static analysis over clang-14 CFG facts: must-lockset, same-critical-section rule, predicate abstraction over timer state with ghost atoms, deadline dataflow on reschedule'
+TECHNIQUE = 'custom static analysis over clang-14 CFG facts: must-lockset, same-critical-section rule, predicate abstraction over timer state with ghost atoms (helpers summarised), deadline dataflow on reschedule, id-keyed-container dataflow'
 TS, TW = "iora::core::TimerService", "iora::core::TimingWheel"
 TSF, TWF = "iora/core/timer.hpp", "iora/core/timing_wheel.hpp"
 TSM, TWM, TWP = TS + "::_mutex", TW + "::_wheelMutex", TW + "::_poolMutex"
@@ -24,7 +24,18 @@ EXPLANATION = (
     "drain fire on the `deadline <= now` side; R5 acceptance is tested in the critical section that inserts, and a non-zero id is returned "
     "only after an insertion (both schedulers and the wheel); R6 stop/drain join the worker before state is cleared, and every return of TimerService::stop() is behind the join or a "
     "wait for the joining caller; R7 condition-variable "
-    "discipline for the drain and tick waits.")
+    "discipline for the drain and tick waits; R13 the id counter is written with anything but an increment only where every container keyed by its ids "
+    "(records, periodic table, the lazily purged deadline heap; the wheel's entry map) is emptied — in the same critical section for the lock-guarded counter. "
+    "Sites are searched through calls into same-class helpers (parameters read as the caller's arguments), `now` and the collected vector are found by dataflow, not by name.")
+# exempt from the function-inventory guard (report.py): these rules hold inside, or look into, functions they have never seen
+FOLLOWS_HELPERS = {
+    "C08-R1": "universal: every access to a guarded field holds its mutex in whichever function it sits (a private helper inherits the lock set of its call sites)",
+    "C08-R2": "erase / unlink / flag-write / hand-out sites are searched through same-class helpers; a helper counts as 'erases' only when all its paths do",
+    "C08-R3": "the pre-announce is followed into the helper that receives the collected vector (summarised with the same abstraction); deeper shapes are refused by the rule itself",
+    "C08-R4": "deadline-carrying aggregates and wheel hand-outs are searched through same-class helpers (parameters read as the caller's arguments); periodic-deadline writes are judged wherever they sit; a due test delegated to a helper is refused by the rule itself",
+    "C08-R11": "universal over every method of the wheel: any hand-out, wherever it sits, needs the dominating deadline test; a helper's bound parameter is judged by what its callers pass",
+    "C08-R13": "universal over every write of the id counter; insertions and emptyings are followed through same-class helpers",
+}
 NOT_DECIDED = ["the wheel's bucket arithmetic (level/slot computation, cascade timing): 'up to one tick early' is numeric", "timing",
                "a handler already running when cancel is called"]
 
@@ -38,6 +49,142 @@ def tsf(ctx, name):
 
 def twf(ctx, name):
     return ctx.fb().func(TW + "::" + name, file_suffix=TWF)
+
+
+# ------------------------------------------------------------------ following calls into helpers of the same class
+# (a clause phrased over one function stays decidable when part of that function's body moves into a private helper: the sites a
+# rule looks for are searched through same-class calls, the helper's parameters are read as the caller's arguments, and "X happens
+# before the site" holds when X dominates the site inside the helper or dominates the call on any level above it)
+
+def unwrap(n):
+    """look through casts, std::move-like wrappers and single-argument copy/conversion constructions"""
+    n = strip_wrappers(n) if n is not None else None
+    while n is not None and n.get("k") == "ctor" and len([a for a in n.get("args", []) if not a.get("def")]) == 1:
+        n = strip_wrappers(n["args"][0])
+    return n
+
+
+def helper_defs(fb, f, n):
+    """definitions of the method of f's own class that a call node resolves to (empty for anything else)"""
+    if not isinstance(n, dict) or n.get("k") not in ("mcall", "call") or not n.get("callee") or f.cls is None:
+        return []
+    if n.get("k") == "mcall" and n.get("obj") is not None and strip_wrappers(n["obj"]).get("k") != "this":
+        return []       # a call on another object is not "this function's body, moved"
+    seen, out = set(), []
+    for g in fb.by_name.get(n["callee"], []):
+        if g.ok and g.cls == f.cls and g.file == f.file and len(g.params) == len(n.get("args", [])) and (g.file, g.line) not in seen:
+            seen.add((g.file, g.line))
+            out.append(g)
+    return out
+
+
+class Site:
+    """an element found in fn, reached from the function a rule started at through the calls in chain = [(caller, call element), …]"""
+    __slots__ = ("fn", "elem", "chain")
+
+    def __init__(self, fn, elem, chain):
+        self.fn, self.elem, self.chain = fn, elem, chain
+
+    def arg_of(self, node):
+        """(function, node): a use of one of fn's parameters read as the argument the caller passes, level by level"""
+        fn, n = self.fn, unwrap(node)
+        for (caller, ce) in reversed(self.chain):
+            if n is None or n.get("k") != "var" or n.get("parm") is None or n["parm"] >= len(ce.node.get("args", [])):
+                break
+            if assigned_in(fn, n.get("d")):
+                break       # the parameter is re-assigned inside the helper: it is no longer the caller's argument
+            fn, n = caller, unwrap(ce.node["args"][n["parm"]])
+        return fn, n
+
+
+def through_helpers(fb, f, pred, depth=3, _chain=(), _seen=None):
+    """[Site] of every element e with pred(function, e), in f itself or in a same-class helper f calls (transitively, ≤ depth)"""
+    seen = set(_seen or ()) | {(f.file, f.line)}
+    out = []
+    for e in f.stmts():
+        if pred(f, e):
+            out.append(Site(f, e, list(_chain)))
+        elif depth > 0:
+            for g in helper_defs(fb, f, e.node):
+                if (g.file, g.line) not in seen:
+                    out += through_helpers(fb, g, pred, depth - 1, tuple(_chain) + ((f, e),), seen)
+    return out
+
+
+def always_does(fb, g, is_event, depth=2):
+    """every path through g (entry → normal exit) passes an element with is_event(function, e), or a call of a helper that always does"""
+    evs = event_elems(fb, g, is_event, depth)
+    return bool(evs) and search(g, ("entry",), "exit", stop=lambda x: any(x is y for y in evs), eh=False) is None
+
+
+def event_elems(fb, f, is_event, depth=2):
+    out = []
+    for e in f.stmts():
+        if is_event(f, e):
+            out.append(e)
+        elif depth > 0 and any(always_does(fb, g, is_event, depth - 1) for g in helper_defs(fb, f, e.node) if (g.file, g.line) != (f.file, f.line)):
+            out.append(e)
+    return out
+
+
+def happens_before(fb, site, is_event):
+    """on every path to the site an event has happened: it dominates the site inside its function, or dominates the call on a level above"""
+    if any(elem_dominates(site.fn, x, site.elem) for x in event_elems(fb, site.fn, is_event)):
+        return True
+    for (caller, ce) in reversed(site.chain):
+        if any(elem_dominates(caller, x, ce) for x in event_elems(fb, caller, is_event)):
+            return True
+    return False
+
+
+def assigned_in(f, d):
+    """the local / parameter with declaration id d is written after its declaration somewhere in f"""
+    for x in f.nodes.values():
+        if x.get("k") in ("bin", "opcall") and x.get("op") in ("=", "+=", "-=", "*=", "/=") or x.get("k") == "un" and ("++" in x.get("op", "") or "--" in x.get("op", "")):
+            t = x.get("lhs") if x["k"] == "bin" else (x.get("v") if x["k"] == "un" else (x.get("args") or [None])[0])
+            t = strip_casts(t) if t is not None else None
+            if t is not None and t.get("k") == "var" and t.get("d") == d:
+                return True
+    return False
+
+
+def local_init(f, d):
+    for e in f.stmts():
+        if e.node.get("k") == "decl":
+            for v in e.node["vars"]:
+                if v["d"] == d:
+                    return v.get("init")
+    return None
+
+
+def now_valued(fb, cg, f, node, depth=0, _open=()):
+    """the expression is the steady clock's current time, unmodified: a `Clock::now()` call, a never re-assigned local initialised
+    with one, or a never re-assigned parameter for which every caller passes one (by dataflow — no name is assumed; a recursive call
+    that passes the parameter on is no new source, so a cycle counts as satisfied)"""
+    n = unwrap(node)
+    if n is None or depth > 6:
+        return False
+    if n.get("k") == "call" and (n.get("callee") or "").endswith("steady_clock::now"):
+        return True
+    if n.get("k") != "var" or assigned_in(f, n.get("d")):
+        return False
+    if n.get("parm") is None:
+        i = local_init(f, n.get("d"))
+        return i is not None and now_valued(fb, cg, f, i, depth + 1, _open)
+    key = (f.file, f.line, n["parm"])
+    if key in _open:
+        return True
+    sites = [(g, cn) for (g, e, cn) in cg.callers.get(f.name, []) if g.ok and len(cn.get("args", [])) > n["parm"]]
+    return bool(sites) and all(now_valued(fb, cg, g, cn["args"][n["parm"]], depth + 1, tuple(_open) + (key,)) for (g, cn) in sites)
+
+
+def is_handout(f, e):
+    """a callback is handed to the caller's fire list: push_back / emplace_back on a by-reference vector<pair<id, callback>> parameter"""
+    n = e.node
+    if n.get("k") != "mcall" or last(n.get("callee", "")) not in ("emplace_back", "push_back"):
+        return False
+    o = strip_casts(n.get("obj") or {})
+    return o.get("k") == "var" and o.get("parm") is not None and "vector" in (o.get("t") or "") and "pair" in (o.get("t") or "")
 
 
 def r1(ctx, r):
@@ -71,7 +218,8 @@ def r2(ctx, r):
         if n.get("k") == "member" and n["n"] == TS + "::Record::canceled" and (n.get("b") or {}).get("k") == "var":
             return A("canceled")
         return None
-    erases = common.member_calls_on(cd, TS + "::_records", ("erase",))
+    # (an erase made by a same-class helper every path of which erases from _records counts at the call)
+    erases = event_elems(fb, cd, lambda g, e: e.node.get("k") == "mcall" and field_of(e.node.get("obj")) == TS + "::_records" and last(e.node.get("callee", "")) == "erase")
 
     def eff(e):
         if e in erases:
@@ -87,44 +235,68 @@ def r2(ctx, r):
         raise AnalysisBroken("collectDueLocked no longer hands handlers out")
     for e in outs:
         r.instance()
+        if not pa.entails(e, And(Not(A("canceled")), A("erased"))):
+            # a cancel test delegated to a helper of the class (`if (isLive(rec))`) is a shape this clause does not evaluate: refuse
+            from ..finite import dominating_facts
+            if any(helper_defs(fb, cd, x) for (c, t) in dominating_facts(cd, e) for x in walk(c)):
+                raise AnalysisBroken("collectDueLocked decides the hand-out through a call into the class (%s): the clause reads the canceled flag and the erase only" % "; ".join(show(c)[:40] for (c, t) in dominating_facts(cd, e))[:160])
         r.expect(pa.entails(e, And(Not(A("canceled")), A("erased"))), cd, e, "handler handed out without erase/cancel test",
                  "collectDueLocked queues a handler for execution on a path where its record was not erased first or its canceled flag was not seen clear (known: %s): "
                  "a cancelled timer can fire, or a record can be collected twice" % ",".join(pa.describe(e)), okdesc="handler handed out only for an erased, non-cancelled record")
     # heap entries are popped before anything is fired (no double collection through the heap)
     pops = [e for e in cd.stmts() if e.node.get("k") == "mcall" and e.node.get("callee") == TS + "::heapPop"]
+    if not pops:
+        raise AnalysisBroken("collectDueLocked no longer calls heapPop: how heap entries leave the heap is not recognised")
     r.instance()
     r.expect(pops and all(any(elem_dominates(cd, p, o) for p in pops) for o in outs), cd, None, "heap entry not popped", "a due heap entry is not popped before its handler is handed out",
              okdesc="heapPop precedes hand-out")
     # cancel: the flag is set only after it was seen clear, under the mutex; returns found accordingly
     cn = [f for f in fb.funcs(TS + "::cancel", TSF) if f.ok and len(f.params) == 1][0]
-    sets = [(e, n) for (e, n, k) in common.field_writes(cn, TS + "::Record::canceled")]
+    # (the write is looked for in cancel() and in the same-class helpers it calls; the lock state inside a helper is the one its call sites give it)
+    wcache = {}
+
+    def flag_writes(g):
+        if id(g) not in wcache:
+            wcache[id(g)] = [(e, n) for (e, n, k) in common.field_writes(g, TS + "::Record::canceled")]
+        return wcache[id(g)]
+    sets = [(q.fn, e, n) for q in through_helpers(fb, cn, lambda g, e: any(we is e for (we, wn) in flag_writes(g))) for (e, n) in flag_writes(q.fn) if e is q.elem]
     r.instance()
-    r.expect(len(sets) == 1 and la.holds(cn, sets[0][0], TSM) and const_value(common.assigned_value(cn, sets[0][1]) or {}) == 1, cn, sets[0][0] if sets else None, "cancel flag",
+    r.expect(len(sets) == 1 and la.holds(sets[0][0], sets[0][1], TSM) and const_value(common.assigned_value(sets[0][0], sets[0][2]) or {}) == 1, sets[0][0] if sets else cn, sets[0][1] if sets else None, "cancel flag",
              "cancel() does not set the record's canceled flag under _mutex", okdesc="cancel: canceled = true under _mutex")
     # wheel: unlink + map erase before a callback is queued; cancel/reschedule unlink and update the map in one section
+    # (the hand-out is found in the function itself or in a same-class helper it calls; unlink / erase count when they dominate the
+    # hand-out there or dominate the call on the way to it)
+    def is_map_erase(g, e):
+        return e.node.get("k") == "mcall" and field_of(e.node.get("obj")) == TW + "::_entryMap" and last(e.node.get("callee", "")) == "erase"
+
+    def is_unlink(g, e):
+        return e.node.get("k") == "mcall" and last(e.node.get("callee", "")) == "unlink"
     for name in ("collectFromBucket", "cascadeDown"):
         f = twf(ctx, name)
-        qs = [e for e in f.stmts() if e.node.get("k") == "mcall" and last(e.node.get("callee", "")) in ("emplace_back", "push_back") and (e.node.get("obj") or {}).get("k") == "var" and "toFire" == e.node["obj"]["n"]]
-        ers = common.member_calls_on(f, TW + "::_entryMap", ("erase",))
-        unl = [e for e in f.stmts() if e.node.get("k") == "mcall" and last(e.node.get("callee", "")) == "unlink"]
+        qs = through_helpers(fb, f, is_handout)
         if not qs:
-            raise AnalysisBroken("%s no longer queues callbacks" % name)
+            raise AnalysisBroken("%s no longer queues callbacks (neither itself nor through a helper of the class)" % name)
         for q in qs:
             r.instance()
-            r.expect(any(elem_dominates(f, x, q) for x in ers) and any(elem_dominates(f, x, q) for x in unl), f, q, "%s: fired without unlink/erase" % name,
+            r.expect(happens_before(fb, q, is_map_erase) and happens_before(fb, q, is_unlink), q.fn, q.elem, "%s: fired without unlink/erase" % name,
                      "%s queues a callback without first unlinking the entry and erasing it from the entry map: cancel() could still report success for a timer that fires, "
                      "or the entry is collected twice" % name, okdesc="%s: unlink + _entryMap.erase before toFire" % name)
+    def is_unlink_entry(g, e):
+        return e.node.get("k") == "mcall" and e.node.get("callee") == TW + "::unlinkEntry"
+
+    def is_insert_entry(g, e):
+        return e.node.get("k") == "mcall" and e.node.get("callee") == TW + "::insertEntry"
     cnw = twf(ctx, "cancel")
     r.instance()
-    ers = common.member_calls_on(cnw, TW + "::_entryMap", ("erase",))
-    unl = [e for e in cnw.stmts() if e.node.get("k") == "mcall" and e.node.get("callee") == TW + "::unlinkEntry"]
+    ers = event_elems(fb, cnw, is_map_erase)
+    unl = event_elems(fb, cnw, is_unlink_entry)
     rt = [e for e in common.returns(cnw) if const_value(e.node.get("v") or {}) == 1]
     r.expect(ers and unl and rt and all(any(elem_dominates(cnw, x, t) for x in ers) and any(elem_dominates(cnw, x, t) for x in unl) and la.holds(cnw, t, TWM) for t in rt), cnw, None,
              "wheel cancel", "TimingWheel::cancel reports success without having unlinked the entry and erased it from the map under _wheelMutex", okdesc="wheel cancel: unlink + erase ⇒ true")
     rs = twf(ctx, "reschedule")
     r.instance()
-    unl = [e for e in rs.stmts() if e.node.get("k") == "mcall" and e.node.get("callee") == TW + "::unlinkEntry"]
-    ins = [e for e in rs.stmts() if e.node.get("k") == "mcall" and e.node.get("callee") == TW + "::insertEntry"]
+    unl = event_elems(fb, rs, is_unlink_entry)
+    ins = event_elems(fb, rs, is_insert_entry)
     rt = [e for e in common.returns(rs) if const_value(e.node.get("v") or {}) == 1]
     r.expect(unl and ins and rt and elem_dominates(rs, unl[0], ins[0]) and all(elem_dominates(rs, ins[0], t) for t in rt) and common.same_section(rs, la, unl[0], ins[0], TWM)[0], rs, None,
              "wheel reschedule", "TimingWheel::reschedule does not unlink the old position and insert the new one in one critical section", okdesc="wheel reschedule: unlink then insert in one section")
@@ -140,36 +312,98 @@ def r3(ctx, r):
         r.instance()
         r.expect(TSM not in la.mutexes(rl, e), rl, e, "handler under lock", "runLoop runs handlers while holding _mutex: a handler that schedules or cancels deadlocks", okdesc="safeRun outside _mutex")
     sr = tsf(ctx, "safeRun")
-    hcalls = [e for e in sr.stmts() if e.node.get("k") == "opcall" and e.node.get("op") == "()"]
+    # (the invocation is looked for in safeRun and in the same-class helpers it calls; the try that protects it is the innermost one
+    # around the invocation itself or around a call on the way to it)
+    hsites = through_helpers(fb, sr, lambda g, e: e.node.get("k") == "opcall" and e.node.get("op") == "()")
+    # … of THE handler: the invoked object traces back to safeRun's parameter (error callbacks invoked from the catch blocks are other objects)
+    hsites = [q for q in hsites if q.elem.node.get("args") and q.arg_of(q.elem.node["args"][0])[0] is sr and (q.arg_of(q.elem.node["args"][0])[1] or {}).get("parm") == 0]
+    if not hsites:
+        raise AnalysisBroken("safeRun: no invocation of the handler found (neither in it nor in a helper of the class)")
+    hcalls = [q.elem for q in hsites]
+
+    def guarded_by_try(q):
+        for (g, e) in [(q.fn, q.elem)] + [(c, ce) for (c, ce) in reversed(q.chain)]:
+            if e.try_id:
+                return g, e
+        return None, None
+    tg, te = guarded_by_try(hsites[0])
     r.instance()
-    r.expect(len(hcalls) == 1 and TSM not in la.mutexes(sr, hcalls[0]) and hcalls[0].try_id, sr, hcalls[0] if hcalls else None, "handler invocation",
+    r.expect(len(hsites) == 1 and TSM not in la.mutexes(hsites[0].fn, hcalls[0]) and te is not None, hsites[0].fn, hcalls[0], "handler invocation",
              "safeRun does not invoke the handler exactly once, lock-free, inside a try block", okdesc="safeRun: h() once, in try, no lock")
-    if hcalls:
-        t = sr.trys.get(hcalls[0].try_id, {})
+    if te is not None:
+        t = tg.trys.get(te.try_id, {})
         r.instance()
-        r.expect("..." in t.get("handlers", []), sr, hcalls[0], "handler exceptions escape", "safeRun's try has no catch-all: a throwing handler kills the timer thread", okdesc="catch (...) around the handler")
-    # pre-announce inside the collecting critical section
+        r.expect("..." in t.get("handlers", []), tg, te, "handler exceptions escape", "safeRun's try has no catch-all: a throwing handler kills the timer thread", okdesc="catch (...) around the handler")
+    # pre-announce inside the collecting critical section.  The vector the collection is handed out in is found by dataflow (the
+    # variable passed for collectDueLocked's vector parameter — no local name is assumed), and the announcement may be made by a
+    # same-class helper that receives that vector: the helper is summarised with the same abstraction ("on every way out of it the
+    # count was added, or the vector was seen empty") and its call then counts as the announcement.
+    from ..locks import LOCK_TYPES
     cds = [e for e in rl.stmts() if e.node.get("k") == "mcall" and e.node.get("callee") == TS + "::collectDueLocked"]
-    adds = [e for e in rl.stmts() if e.node.get("k") == "mcall" and last(e.node.get("callee", "")) == "fetch_add" and field_of(e.node.get("obj")) == TS + "::_executingCallbacks"]
+    outi = [i for i, p_ in enumerate(tsf(ctx, "collectDueLocked").params) if "vector" in p_["t"]]
+    if len(outi) != 1 or not cds:
+        raise AnalysisBroken("runLoop / collectDueLocked: the hand-out vector is not identified")
+    ready_ds = set()
+    for c in cds:
+        a0 = unwrap(c.node["args"][outi[0]])
+        if a0 is None or a0.get("k") != "var" or a0.get("d") is None:
+            raise AnalysisBroken("runLoop: the vector handed to collectDueLocked is not a plain local")
+        ready_ds.add(a0["d"])
+
+    def is_ready(x, parm=None):
+        """x names the collected vector: in runLoop by its declaration, inside a helper by the parameter it was passed for"""
+        x = unwrap(x)
+        return x is not None and x.get("k") == "var" and ((x.get("d") in ready_ds) if parm is None else (x.get("parm") == parm))
+
+    def is_add(n):
+        return n.get("k") == "mcall" and last(n.get("callee", "")) == "fetch_add" and field_of(n.get("obj")) == TS + "::_executingCallbacks"
+
+    def is_empty_test(n, parm=None):
+        return n.get("k") == "mcall" and last(n.get("callee", "")) == "empty" and is_ready(n.get("obj"), parm)
+
+    def adds_size(n, parm=None):
+        a = unwrap(n["args"][0]) if n.get("args") else None
+        return a is not None and a.get("k") == "mcall" and last(a.get("callee", "")) == "size" and is_ready(a.get("obj"), parm)
+    adds = [e for e in rl.stmts() if is_add(e.node)]
+    announcers, helper_adds = [], {}
+    for e in rl.stmts():
+        for g in helper_defs(fb, rl, e.node):
+            for i, a in enumerate(e.node.get("args", [])):
+                gadds = [x for x in g.stmts() if is_add(x.node)]
+                if is_ready(a) and gadds:
+                    gpa = PredAbs(g, Vocab(["announced", "empty"]), lambda n, i=i: A("empty") if is_empty_test(n, i) else None,
+                                  lambda x, gadds=gadds: [("set", "announced", True)] if any(x is y for y in gadds) else None, init=Not(A("announced")))
+                    if gpa.exit_entails(Or(A("announced"), A("empty"))):
+                        announcers.append(e)
+                        helper_adds[(g.file, g.line)] = (g, gadds, i)
+                elif not gadds and is_ready(a) and g.name not in (TS + "::collectDueLocked",):
+                    # the vector goes into a helper that does not add to the counter itself: if something below it does, the summary
+                    # above cannot see it — such a shape is refused, not reported
+                    below = ctx.cg().reach([g], follow_lambdas=False)
+                    if any(is_add(x.node) for h_ in fb.functions if h_.ok and h_.sig in below and h_ is not g for x in h_.stmts()):
+                        raise AnalysisBroken("runLoop hands the collected vector to %s, which announces it (if at all) through a further call: the rule summarises one helper level only" % short(g.name))
     vocab = Vocab(["announced", "empty", "collected"])
 
     def leaf(n):
-        if n.get("k") == "mcall" and last(n.get("callee", "")) == "empty" and (n.get("obj") or {}).get("k") == "var" and n["obj"]["n"] == "ready":
-            return A("empty")
-        return None
+        return A("empty") if is_empty_test(n) else None
 
     def eff(e):
         if e in cds:
             return [("set", "collected", True), ("set", "announced", False), ("havoc", "empty")]
         if e in adds:
             return [("set", "announced", True)]
-        if e.kind == "stmt" and e.node.get("k") == "mcall" and last(e.node.get("callee", "")) == "clear" and (e.node.get("obj") or {}).get("k") == "var" and e.node["obj"]["n"] == "ready":
+        if e in announcers:
+            return [("havoc", "announced"), ("assume", Or(A("announced"), A("empty")))]
+        if e.kind == "stmt" and e.node.get("k") == "mcall" and last(e.node.get("callee", "")) == "clear" and is_ready(e.node.get("obj")):
             return [("set", "empty", True), ("set", "collected", False)]
         if e in runs:
             return [("set", "collected", False)]
         return None
     pa = PredAbs(rl, vocab, leaf, eff, init=And(Not(A("collected")), Not(A("announced"))))
-    rel = [e for e in rl.elems() if e.kind == "dtor" and e.raw.get("t", "").startswith("std::lock_guard") and any(search(rl, c, lambda x, e=e: x is e, stop=lambda x: x.kind == "dtor" and x is not e and x.raw.get("t", "").startswith("std::lock_guard"), eh=False) for c in cds)]
+
+    def is_release(x):
+        return x.kind == "dtor" and LOCK_TYPES.match(x.raw.get("t", "")) is not None
+    rel = [e for e in rl.elems() if is_release(e) and any(search(rl, c, lambda x, e=e: x is e, stop=lambda x, e=e: is_release(x) and x is not e, eh=False) for c in cds)]
     if len(rel) < 2:
         raise AnalysisBroken("runLoop: cannot find the lock releases that end the collecting critical sections")
     for e in rel:
@@ -179,7 +413,11 @@ def r3(ctx, r):
                  "while handlers are still about to run (a handler runs after stop()/drain() returned)", okdesc="collect → fetch_add(ready.size()) before the lock is released")
     for a in adds:
         r.instance()
-        r.expect("ready.size()" in show(a.node), rl, a, "announce count", "the pre-announce does not add ready.size()", okdesc="fetch_add(ready.size())")
+        r.expect(adds_size(a.node), rl, a, "announce count", "the pre-announce does not add ready.size()", okdesc="fetch_add(ready.size())")
+    for (g, gadds, i) in helper_adds.values():
+        for a in gadds:
+            r.instance()
+            r.expect(adds_size(a.node, i), g, a, "announce count", "the pre-announce (in %s) does not add the size of the collected vector" % short(g.name), okdesc="fetch_add(ready.size()) in %s" % short(g.name))
     # the counting guard
     gdecl = [e for e in sr.stmts() if e.node.get("k") == "decl" and any("CountGuard" in v["t"] for v in e.node["vars"])]
     r.instance()
@@ -211,29 +449,56 @@ def r3(ctx, r):
 
 def r4(ctx, r):
     fb = ctx.fb()
-    # (a) the stored deadline is the parameter, unmodified
+    # (a) the stored deadline is the parameter, unmodified.  The aggregates that carry a deadline (Record / HeapItem / PeriodicTimer) are
+    # found wherever they are built — in the scheduling function or in a same-class helper it calls — and the value placed in their
+    # time field is read back through the helper's parameters to what the scheduling function passed.
+    TIMEFIELD = {TS + "::Record": "tp", TS + "::HeapItem": "tp", TS + "::PeriodicTimer": "nextExecution"}
+
+    def aggregates(n):
+        for x in walk(n):
+            if x.get("k") == "ilist" and (x.get("t") or "").replace("const ", "") in TIMEFIELD:
+                names = [y["n"] for y in fb.record(x["t"].replace("const ", ""))["fields"]]
+                i = names.index(TIMEFIELD[x["t"].replace("const ", "")])
+                if i < len(x.get("vals", [])):
+                    yield x, x["vals"][i]
+
+    def stored_deadlines(f):
+        """[(function, value node)]: for every deadline-carrying aggregate built by f or its helpers, the value of its time field, as an expression of f where it traces back"""
+        out = []
+        for q in through_helpers(fb, f, lambda g, e: "root" in e.raw and any(True for _ in aggregates(e.node))):
+            for (agg, val) in aggregates(q.elem.node):
+                out.append(q.arg_of(val) + (agg["t"],))
+        return out
+
+    def through_locals(f, n, depth=0):
+        """a never re-assigned local stands for its initialiser"""
+        n = unwrap(n)
+        while n is not None and depth < 4 and n.get("k") == "var" and n.get("parm") is None and not assigned_in(f, n.get("d")) and local_init(f, n.get("d")) is not None:
+            n, depth = unwrap(local_init(f, n["d"])), depth + 1
+        return n
+
+    def is_now_plus(f, n, parm):
+        """n is `Clock::now() + <parameter parm>` (either order), nothing else"""
+        n = through_locals(f, n)
+        if n is None or n.get("k") not in ("opcall", "bin") or n.get("op") != "+":
+            return False
+        l, rr = (n["args"][0], n["args"][1]) if n["k"] == "opcall" else (n["lhs"], n["rhs"])
+        l, rr = unwrap(l), unwrap(rr)
+        for (x, y) in ((l, rr), (rr, l)):
+            if x is not None and y is not None and x.get("k") == "call" and (x.get("callee") or "").endswith("steady_clock::now") and y.get("k") == "var" and y.get("parm") == parm and not assigned_in(f, y.get("d")):
+                return True
+        return False
     sa = tsf(ctx, "scheduleAt")
-    tpn = sa.params[0]["n"]
-    ctors = [n for n in sa.nodes.values() if n.get("k") in ("ctor", "ilist", "cast") and (n.get("t", "").endswith(("TimerService::Record", "TimerService::HeapItem")))]
+    built = stored_deadlines(sa)
+    if len({t for (_, _, t) in built}) < 2:
+        raise AnalysisBroken("scheduleAt: the record and the heap entry it builds are not found (neither in it nor in a helper of the class)")
     r.instance()
-    ok = len(ctors) >= 2
-    for n in ctors:
-        args = n.get("args") or n.get("vals") or ([n["v"]] if n.get("v") else [])
-        while len(args) == 1 and args[0].get("k") in ("ilist", "ctor"):
-            args = args[0].get("args") or args[0].get("vals") or []
-        first = strip_wrappers(args[0]) if args else None
-        while first is not None and first.get("k") == "ctor" and len(first.get("args", [])) == 1:
-            first = strip_wrappers(first["args"][0])
-        if first is None or not (first.get("k") == "var" and first["n"] == tpn):
-            ok = False
+    ok = all(g is sa and v is not None and v.get("k") == "var" and v.get("parm") == 0 and not assigned_in(sa, v.get("d")) for (g, v, t) in built)
     r.expect(ok, sa, None, "deadline modified", "scheduleAt does not store the caller's time point unmodified in the record and the heap entry", okdesc="Record{tp,…} and HeapItem{tp,…} use the parameter as is")
     saf = tsf(ctx, "scheduleAfter")
     r.instance()
     calls = [e for e in saf.stmts() if e.node.get("k") == "mcall" and last(e.node.get("callee", "")) == "scheduleAt"]
-    ok = bool(calls)
-    if ok:
-        a0 = strip_wrappers(calls[0].node["args"][0])
-        ok = show(a0).replace(" ", "") in ("steady_clock::now()+" + saf.params[0]["n"], saf.params[0]["n"] + "+steady_clock::now()")
+    ok = bool(calls) and is_now_plus(saf, calls[0].node["args"][0], 0)
     r.expect(ok, saf, calls[0] if calls else None, "scheduleAfter deadline", "scheduleAfter does not schedule at exactly now() + d", okdesc="scheduleAfter: now() + d")
     # (b) a heap entry is popped (collected) only when its deadline was seen to be <= now
     cd = tsf(ctx, "collectDueLocked")
@@ -260,28 +525,18 @@ def r4(ctx, r):
         raise AnalysisBroken("collectDueLocked no longer pops the heap")
     for p_ in pops:
         r.instance()
+        if not pab.entails(p_, A("due")):
+            # a due test delegated to a helper of the class (`if (!isDue(top, now)) break;`) is a shape this clause does not evaluate: refuse
+            from ..finite import dominating_facts
+            if any(helper_defs(fb, cd, x) for (c, t) in dominating_facts(cd, p_) for x in walk(c)):
+                raise AnalysisBroken("collectDueLocked decides 'due' through a call into the class (%s): the orientation clause reads comparisons only" % "; ".join(show(c)[:40] for (c, t) in dominating_facts(cd, p_))[:160])
         r.expect(pab.entails(p_, A("due")), cd, p_, "due test orientation", "collectDueLocked collects a heap entry without its deadline having been compared `<= now` against the unmodified "
                  "`now` parameter: a timer can fire before its deadline", okdesc="heap entry collected only when top.tp <= now")
     rl = tsf(ctx, "runLoop")
     for e in rl.stmts():
         if e.node.get("k") == "mcall" and e.node.get("callee") == TS + "::collectDueLocked":
             r.instance()
-            a0 = strip_wrappers(e.node["args"][0])
-            while a0.get("k") == "ctor" and len(a0.get("args", [])) == 1:
-                a0 = strip_wrappers(a0["args"][0])
-            init = None
-            if a0.get("k") == "var":
-                for x in rl.stmts():
-                    if x.node.get("k") == "decl":
-                        for v in x.node["vars"]:
-                            if v["d"] == a0.get("d"):
-                                init = strip_wrappers(v.get("init"))
-                while init is not None and init.get("k") == "ctor" and len(init.get("args", [])) == 1:
-                    init = strip_wrappers(init["args"][0])
-            r.expect(init is not None and init.get("k") == "call" and init.get("callee", "").endswith("steady_clock::now") and
-                     not any(x.node.get("k") in ("bin", "opcall") and x.node.get("op", "") in ("=", "+=", "-=") and
-                             strip_wrappers(x.node.get("lhs") or (x.node.get("args") or [{}])[0]).get("n") == a0.get("n") and
-                             strip_wrappers(x.node.get("lhs") or (x.node.get("args") or [{}])[0]).get("d") == a0.get("d") for x in rl.stmts()), rl, e, "`now` is not now()", "the time handed to collectDueLocked is not an unmodified Clock::now()", okdesc="collectDueLocked(Clock::now())")
+            r.expect(now_valued(fb, ctx.cg(), rl, e.node["args"][0]), rl, e, "`now` is not now()", "the time handed to collectDueLocked is not an unmodified Clock::now()", okdesc="collectDueLocked(Clock::now())")
     # (c) periodic deadlines
     nw = 0
     for f in fb.in_file(TSF):
@@ -296,30 +551,69 @@ def r4(ctx, r):
                      okdesc="nextExecution += interval")
     if nw < 1:
         raise AnalysisBroken("no write to PeriodicTimer::nextExecution found")
+    # the first deadline of a periodic timer: every deadline-carrying aggregate schedulePeriodic builds (periodic entry, record, heap
+    # item; directly or in a helper) gets `now() + interval` — found through the value stored, not through a local's name
     sp = tsf(ctx, "schedulePeriodic")
+    built = stored_deadlines(sp)
+    if len({t for (_, _, t) in built}) < 3:
+        raise AnalysisBroken("schedulePeriodic: the periodic entry, the record and the heap entry it builds are not found (neither in it nor in a helper of the class)")
     r.instance()
-    dl = [v for e in sp.stmts() if e.node.get("k") == "decl" for v in e.node["vars"] if v["n"] == "deadline"]
-    ok = len(dl) == 1 and show(strip_wrappers(dl[0]["init"])).replace(" ", "") in ("steady_clock::now()+" + sp.params[0]["n"],)
+    ok = all(g is sp and is_now_plus(sp, v, 0) for (g, v, t) in built)
     r.expect(ok, sp, None, "first periodic deadline", "the first deadline of a periodic timer is not now() + interval", okdesc="periodic: first deadline = now() + interval")
-    # (d) wheel: cascade and drain fire on the deadline <= now side
+    # (d) wheel: cascade and drain fire on the deadline <= now side.  `now` is found by dataflow (now_valued: an unmodified
+    # Clock::now() — local, or parameter every caller feeds with one), the hand-out may sit in a same-class helper (its bound
+    # parameter is read as the argument this caller passes), and the fact is forgotten whenever the entry variable moves on.
+    cg = ctx.cg()
+
+    def is_fire_push(g, e):
+        # hand-out to the caller's fire list, or (drain) to the local vector<pair<id, callback>> that is fired after the lock
+        n = e.node
+        o = strip_casts(n.get("obj") or {}) if n.get("k") == "mcall" else {}
+        return n.get("k") == "mcall" and last(n.get("callee", "")) in ("emplace_back", "push_back") and o.get("k") == "var" and "vector" in (o.get("t") or "") and "pair" in (o.get("t") or "")
     for name in ("cascadeDown", "drain"):
         f = twf(ctx, name)
-        qs = [e for e in f.stmts() if e.node.get("k") == "mcall" and last(e.node.get("callee", "")) in ("emplace_back", "push_back") and (e.node.get("obj") or {}).get("k") == "var" and e.node["obj"]["n"] == "toFire"]
-        vocab = Vocab(["due"])
-
-        def leaf(n):
-            cp = common.cmp_parts(n)
-            if cp:
-                l, rr = show(strip_casts(cp[1])), show(strip_casts(cp[2]))
-                if l.endswith("deadline") and rr == "now":
-                    return {"<=": A("due"), ">": Not(A("due")), "<": None, ">=": None}.get(cp[0])
-                if l == "now" and rr.endswith("deadline"):
-                    return {">=": A("due"), "<": Not(A("due"))}.get(cp[0])
-            return None
-        pa = PredAbs(f, vocab, leaf, lambda e: [("havoc", "due")] if e.kind == "stmt" and e.node.get("k") == "decl" and any(v["n"] in ("next", "e") for v in e.node["vars"]) else None)
+        qs = through_helpers(fb, f, is_fire_push)
+        if not qs:
+            raise AnalysisBroken("TimingWheel::%s no longer hands callbacks to a fire list (neither itself nor through a helper of the class)" % name)
         for q in qs:
+            g = q.fn
+            vocab = Vocab(["due"])
+            entry_vars = set()
+
+            def is_deadline(x):
+                x = strip_casts(x)
+                return x is not None and x.get("k") == "member" and last(x["n"]) == "deadline"
+
+            def leaf(n, q=q, g=g, entry_vars=entry_vars):
+                cp = common.cmp_parts(n)
+                if cp and is_deadline(cp[1]) and not is_deadline(cp[2]):
+                    bf, bn = q.arg_of(cp[2])
+                    if now_valued(fb, cg, bf, bn):
+                        for x in walk(cp[1]):
+                            if x.get("k") == "var":
+                                entry_vars.add(x.get("d"))
+                        return {"<=": A("due"), ">": Not(A("due"))}.get(cp[0])
+                return None     # (the mirrored spelling `now >= deadline` is offered by predabs.translate)
+
+            def eff(e, entry_vars=entry_vars):
+                # the variable the compared entry is reached through is declared / re-assigned: what was known about "its" deadline is gone
+                if e.kind != "stmt":
+                    return None
+                n = e.node
+                if n.get("k") == "decl" and any(v["d"] in entry_vars for v in n["vars"]):
+                    return [("havoc", "due")]
+                if n.get("k") in ("bin", "opcall") and n.get("op") == "=":
+                    t = strip_casts(n["lhs"] if n["k"] == "bin" else n["args"][0])
+                    if t is not None and t.get("k") == "var" and t.get("d") in entry_vars:
+                        return [("havoc", "due")]
+                return None
+            for b_ in g.blocks.values():      # first pass: learn which variables carry the compared entry
+                if b_.cond is not None:
+                    from ..predabs import translate
+                    translate(b_.cond, leaf)
+            pa = PredAbs(g, vocab, leaf, eff)
             r.instance()
-            r.expect(pa.entails(q, A("due")), f, q, "%s fires early" % name, "TimingWheel::%s queues a callback whose deadline was not seen to be <= now" % name, okdesc="%s: fire only when deadline <= now" % name)
+            r.expect(pa.entails(q.elem, A("due")), g, q.elem, "%s fires early" % name, "TimingWheel::%s queues a callback whose deadline was not seen to be <= now" % name, okdesc="%s: fire only when deadline <= now" % name)
 
 
 def r4e(ctx, r):
@@ -364,10 +658,18 @@ def r5(ctx, r):
                                       (twf(ctx, "schedule"), TWM, ("_entryMap",), TW + "::_accepting")):
         cls = f.cls
         vocab = Vocab(["accepting", "inserted", "perr"])
+        # the local that carries a refusal out of the critical section is found by its type (the error enumeration), the id by
+        # dataflow (the local that receives the fresh counter value) — no local name is assumed
+        err_ds = {v["d"] for e in f.stmts() if e.node.get("k") == "decl" for v in e.node["vars"] if (v.get("t") or "").replace("const ", "").endswith("TimerError")}
+        if len(err_ds) > 1:
+            raise AnalysisBroken("%s: %d locals of the error enumeration — the rule tracks one pending error" % (short(f.name), len(err_ds)))
+        id_ds = {d for (fld, d) in fresh_id_decls(f, cls)}
+        if not id_ds:
+            raise AnalysisBroken("%s: no local receives a fresh id from a counter of the class" % short(f.name))
 
-        def leaf(n, accf=accf):
+        def leaf(n, accf=accf, err_ds=err_ds):
             # `pendingError != TimerError::None`
-            if n.get("k") == "bin" and n["op"] in ("!=", "==") and strip_casts(n["lhs"]).get("k") == "var" and strip_casts(n["lhs"])["n"] == "pendingError" and strip_casts(n["rhs"]).get("k") == "enum":
+            if n.get("k") == "bin" and n["op"] in ("!=", "==") and strip_casts(n["lhs"]).get("k") == "var" and strip_casts(n["lhs"]).get("d") in err_ds and strip_casts(n["rhs"]).get("k") == "enum":
                 isnone = last(strip_casts(n["rhs"])["n"]) == "None"
                 if isnone:
                     return A("perr") if n["op"] == "!=" else Not(A("perr"))
@@ -382,20 +684,21 @@ def r5(ctx, r):
         if not ins:
             raise AnalysisBroken("%s no longer inserts" % short(f.name))
 
-        def eff(e, ins=ins):
+        def eff(e, ins=ins, err_ds=err_ds):
+            from ..locks import LOCK_TYPES
             if e in ins:
                 return [("set", "inserted", True)]
-            if e.kind == "stmt" and e.node.get("k") == "bin" and e.node["op"] == "=" and e.node["lhs"].get("k") == "var" and e.node["lhs"]["n"] == "pendingError":
+            if e.kind == "stmt" and e.node.get("k") == "bin" and e.node["op"] == "=" and e.node["lhs"].get("k") == "var" and e.node["lhs"].get("d") in err_ds:
                 v = strip_casts(e.node["rhs"])
                 return [("set", "perr", not (v.get("k") == "enum" and last(v["n"]) == "None"))]
             if e.kind == "stmt" and e.node.get("k") == "decl":
                 for v in e.node["vars"]:
-                    if v["n"] == "pendingError":
+                    if v["d"] in err_ds:
                         i = strip_casts(v.get("init") or {})
                         return [("set", "perr", not (i.get("k") == "enum" and last(i["n"]) == "None"))]
-            if e.kind == "stmt" and e.node.get("k") == "decl" and any(v["t"].startswith(("std::lock_guard", "std::unique_lock")) for v in e.node["vars"]):
-                return [("havoc", "accepting")]     # whatever was read before the lock was taken may be stale
-            if e.kind == "dtor" and e.raw.get("t", "").startswith(("std::lock_guard", "std::unique_lock")):
+            if e.kind == "stmt" and e.node.get("k") == "decl" and any(LOCK_TYPES.match(v["t"]) for v in e.node["vars"]):
+                return [("havoc", "accepting")]     # whatever was read before the lock was taken may be stale (any RAII lock type)
+            if e.kind == "dtor" and LOCK_TYPES.match(e.raw.get("t", "")):
                 return [("havoc", "accepting")]
             return None
         pa = PredAbs(f, vocab, leaf, eff, init=Not(A("inserted")), track_bools=True)
@@ -408,7 +711,7 @@ def r5(ctx, r):
             v = strip_wrappers(ret.node.get("v")) if ret.node.get("v") else None
             while v is not None and v.get("k") in ("ctor", "cast") and len(v.get("args", [v.get("v")])) == 1:
                 v = strip_wrappers((v.get("args") or [v.get("v")])[0])
-            if v is not None and v.get("k") == "var" and v["n"] == "id":
+            if v is not None and v.get("k") == "var" and v.get("d") in id_ds:
                 r.instance()
                 r.expect(pa.entails(ret, A("inserted")), f, ret, "id without insertion", "%s can return the id variable on a path that inserted nothing" % short(f.name),
                          okdesc="%s: id returned only after insertion" % short(f.name))
@@ -463,10 +766,41 @@ def r6(ctx, r):
 
 
 def r7(ctx, r):
-    fb, la = ctx.fb(), ctx.locks()
+    fb, la, cg = ctx.fb(), ctx.locks(), ctx.cg()
     n = common.cv_discipline(r, fb, la, lambda f: f.file.endswith((TSF, TWF)))
     if n < 3:
         raise AnalysisBroken("expected at least 3 condition-variable waits in timer.hpp/timing_wheel.hpp, found %d" % n)
+    # a wait predicate that reads its state through a helper of the class (`remaining = activeCount()`) still depends on the fields
+    # the helper reads: every write of those is made with the wait's mutex held (the stricter of the two idioms cv_discipline accepts)
+    seen = set()
+    for w in common.cv_waits(fb, lambda f: f.file.endswith((TSF, TWF))):
+        P, f, e = w["pred"], w["f"], w["e"]
+        if P is None or (f.file, e.line) in seen:
+            continue
+        seen.add((f.file, e.line))
+        lv = w["lockvar"]
+        ms = la.fn(f).lockvars.get(lv.get("d"), ((),))[0] if lv is not None and lv.get("k") == "var" else ()
+        own = {x["n"] for x in P.nodes.values() if x.get("k") == "member"}
+        via = set()
+        work, done = [g for x in P.stmts() for g in helper_defs(fb, f, x.node)], set()
+        while work:
+            g = work.pop()
+            if (g.file, g.line) in done or len(done) > 8:
+                continue
+            done.add((g.file, g.line))
+            for h in [g] + [lf for (ln, lf) in g.lambdas if lf.ok]:
+                via |= {x["n"] for x in h.nodes.values() if x.get("k") == "member" and "t" in x and x["n"].startswith((f.cls or "?") + "::") and not x.get("t", "").startswith(("std::mutex", "std::condition_variable"))}
+                work += [k for x in h.stmts() for k in helper_defs(fb, g, x.node)]
+        for fld in sorted(via - own):
+            for (g, ge, gn, kind) in access.accesses(fb, fld):
+                if kind not in ("write", "rw") or ge is None or g.kind in ("ctor", "dtor"):
+                    continue
+                r.instance()
+                if not ms:
+                    raise AnalysisBroken("cannot identify the mutex of the wait at %s" % f.loc(e))
+                r.expect(la.holds(g, ge, ms[0]), g, ge, "write %s read by a wait predicate's helper" % last(fld),
+                         "%s is read (through a helper the predicate calls) by the wait at %s under %s, but is written here without that mutex: the waiter can miss the change (lost wake-up)" % (fld, f.loc(e), ms[0]),
+                         okdesc="%s writes %s under %s (read by the predicate of the wait in %s through a helper)" % (short(g.name), last(fld), last(ms[0]), short(f.name)))
 
 
 def r9(ctx, r):
@@ -534,7 +868,9 @@ def r10(ctx, r):
     if len(outp) != 1:
         raise AnalysisBroken("collectDueLocked: hand-out vector parameter not identified")
     hand = [e for e in col.stmts() if e.node.get("k") == "mcall" and last(e.node.get("callee", "")) in ("push_back", "emplace_back") and (e.node.get("obj") or {}).get("k") == "var" and e.node["obj"]["n"] == outp[0]]
-    rearm = common.member_calls_on(col, TS + "::_records", ("emplace", "insert", "try_emplace", "insert_or_assign"))
+    # (the re-arm may sit in a same-class helper collect calls: it is then judged at the call, with the helper's key parameter read as
+    # the argument collect passes)
+    rearm = through_helpers(ctx.fb(), col, lambda g, e: e.node.get("k") == "mcall" and field_of(e.node.get("obj")) == TS + "::_records" and last(e.node.get("callee", "")) in ("emplace", "insert", "try_emplace", "insert_or_assign"))
     if not hand:
         raise AnalysisBroken("collectDueLocked: no hand-out found")
     r.instance()
@@ -543,9 +879,11 @@ def r10(ctx, r):
         return
     # the id the fired record was stored under, and the key of the re-arm
     erased = common.member_calls_on(col, TS + "::_records", ("erase",))
-    for ra in rearm:
-        key = strip_casts(strip_wrappers(ra.node["args"][0])) if ra.node.get("args") else None
-        same_id = key is not None and key.get("k") == "var" and any(search(col, h, lambda x, ra=ra: x is ra, stop=lambda x: x in erased, eh=False) is not None for h in hand)
+    for site in rearm:
+        ra = site.chain[0][1] if site.chain else site.elem          # the element of collect at which the re-arm happens
+        kf, key = site.arg_of(site.elem.node["args"][0]) if site.elem.node.get("args") else (None, None)
+        key = strip_casts(key) if key is not None else None
+        same_id = kf is col and key is not None and key.get("k") == "var" and any(search(col, h, lambda x, ra=ra: x is ra, stop=lambda x: x in erased, eh=False) is not None for h in hand)
         if not same_id:
             continue
         # marks collect writes on the way from the hand-out to the re-arm, and what cancel tests before it reports success
@@ -556,6 +894,9 @@ def r10(ctx, r):
                     continue
                 for (e, n, k) in common.field_writes(col, rec + "::" + fld["n"]):
                     if any(search(col, h, lambda x, e=e: x is e, eh=False) is not None for h in hand):
+                        marks.add(rec + "::" + fld["n"])
+                for g in {id(c[0]): c[0] for c in site.chain[1:] + [(site.fn, None)] if c[0] is not col}.values():
+                    if common.field_writes(g, rec + "::" + fld["n"]):
                         marks.add(rec + "::" + fld["n"])
         cinits = {}
         for e in can.stmts():
@@ -587,7 +928,7 @@ def r10(ctx, r):
         r.expect(bool(marks & tested), col, ra, "periodic firing handed out while its id stays cancellable",
                  "collectDueLocked copies the due firing's handler into the ready vector and, in the same critical section, re-arms a record under the same id (`%s`): cancel(id) finds that record / the periodic entry "
                  "and returns true, yet the firing already collected starts afterwards — after every handler collected before it has finished (collect leaves no in-flight mark that cancel() tests: collect writes %s, cancel tests %s)"
-                 % (show(ra.node)[:60], sorted(short(x) for x in marks) or "none", sorted(short(x) for x in tested if "canceled" in x or x in marks) or "only the canceled flags"),
+                 % (show(site.elem.node)[:60], sorted(short(x) for x in marks) or "none", sorted(short(x) for x in tested if "canceled" in x or x in marks) or "only the canceled flags"),
                  okdesc="in-flight mark written by collect and tested by cancel")
 
 
@@ -598,22 +939,47 @@ def r11(ctx, r):
     re-insert entries (insertEntry) walks a DETACHED chain, or a re-inserted entry landing in the same bucket is visited again
     (two such entries hand each other over forever, under the wheel mutex)."""
     from ..finite import dominating_facts
-    fb = ctx.fb()
+    fb, cg = ctx.fb(), ctx.cg()
     nh = 0
+
+    def names_time(f, node, depth=0, _open=()):
+        """the bound the deadline is compared with is derived from the current time: it mentions Clock::now(), a local initialised
+        from such an expression, or a parameter — of an entry point (no caller inside the class), or one that every caller inside
+        the class feeds with such an expression (a helper's `dueLimit` is judged by what its callers pass)"""
+        if depth > 6:
+            return False
+        for x in walk(node or {}):
+            if x.get("k") == "call" and (x.get("callee") or "").endswith("steady_clock::now"):
+                return True
+            if x.get("k") != "var" or not ("time_point" in (x.get("t") or "") or "TimePoint" in (x.get("t") or "")):
+                continue
+            if x.get("parm") is None:
+                i = local_init(f, x.get("d"))
+                if i is not None and names_time(f, i, depth + 1, _open):
+                    return True
+                continue
+            key = (f.file, f.line, x["parm"])
+            if key in _open:
+                continue
+            sites = [(g, cn) for (g, e, cn) in cg.callers.get(f.name, []) if g.ok and g.cls == f.cls and (g.file, g.line) != (f.file, f.line) and len(cn.get("args", [])) > x["parm"]]
+            if not sites or all(names_time(g, cn["args"][x["parm"]], depth + 1, tuple(_open) + (key,)) for (g, cn) in sites):
+                return True
+        return False
     for f in fb.methods_of(TW):
         if not f.ok:
             continue
-        outs = [p_["n"] for p_ in f.params if "vector" in p_["t"] and "pair" in p_["t"]]
-        hands = [e for e in f.stmts() if e.node.get("k") == "mcall" and last(e.node.get("callee", "")) in ("emplace_back", "push_back") and strip_casts(e.node.get("obj") or {}).get("n") in outs]
-        for h in hands:
+        hands = [e for e in f.stmts() if is_handout(f, e)]
+        # floor: functions that hand callbacks out through their fire-list parameter, themselves or through a helper
+        if any(("vector" in p_["t"] and "pair" in p_["t"]) for p_ in f.params) and through_helpers(fb, f, is_handout):
             nh += 1
+        for h in hands:
             r.instance()
             facts = dominating_facts(f, h)
-            dl = [(c, t) for (c, t) in facts if any(x.get("k") == "member" and x["n"] == TW + "::TimerEntry::deadline" for x in walk(c)) and any(x.get("k") == "var" and x.get("parm") is not None for x in walk(c))]
+            dl = [(c, t) for (c, t) in facts if any(x.get("k") == "member" and x["n"] == TW + "::TimerEntry::deadline" for x in walk(c))]
             ok = False
             for (c, t) in dl:
                 co = common.cmp_oriented(c, lambda x: not any(y.get("k") == "member" and y["n"] == TW + "::TimerEntry::deadline" for y in walk(x)))
-                if not co:
+                if not co or not names_time(f, co[2]):
                     continue
                 op = co[0]
                 # deadline OP bound: due means deadline <= bound (true edge) or !(deadline > bound) (false edge)
@@ -647,7 +1013,7 @@ def r11(ctx, r):
                      "remaining delay wraps round the level lands in the very bucket being walked and is visited again — two such entries hand each other over forever under _wheelMutex (tick thread spins, no timer fires, "
                      "every call and the destructor block)" % (short(f.name), show(src or {})[:30]), okdesc="%s: walks a detached chain" % short(f.name))
     if nh < 2:
-        raise AnalysisBroken("TimingWheel: only %d hand-out sites found" % nh)
+        raise AnalysisBroken("TimingWheel: only %d functions hand callbacks out through a fire-list parameter (collectFromBucket and cascadeDown expected)" % nh)
 
 
 def r12(ctx, r):
@@ -688,6 +1054,183 @@ def r12(ctx, r):
                  "time it just fired, finds it due again and loops forever under _mutex — the handler never runs, cancel/stop/the destructor block", okdesc="registration only for interval > 0")
 
 
+INSERTERS = ("emplace", "insert", "try_emplace", "insert_or_assign", "emplace_back", "push_back", "emplace_hint", "push", "emplace_front", "push_front")
+
+
+def _mentions_decl(n, d):
+    return any(x.get("k") == "var" and x.get("d") == d for x in walk(n))
+
+
+def _mentions_parm(n, i):
+    return any(x.get("k") == "var" and x.get("parm") == i for x in walk(n))
+
+
+def fresh_id_decls(f, cls):
+    """[(counter field, declaration id of the local)]: locals of f that receive a fresh value of a counter field of the class
+    (`x = ++F`, `x = F++`, `auto x = F.fetch_add(1)`)"""
+    out = []
+    for n in list(f.nodes.values()):
+        fld = None
+        if n.get("k") == "un" and n.get("op") in ("pre++", "post++"):
+            fld = field_of(n.get("v"))
+        elif n.get("k") == "mcall" and last(n.get("callee", "")) == "fetch_add":
+            fld = field_of(n.get("obj"))
+        if not fld or not fld.startswith(cls + "::"):
+            continue
+        p = f.nodes.get(f.parent.get(n["id"]))
+        while p is not None and p.get("k") == "cast":
+            p = f.nodes.get(f.parent.get(p["id"]))
+        d = None
+        if p is not None and p.get("k") == "bin" and p["op"] == "=" and strip_casts(p["lhs"]).get("k") == "var":
+            d = strip_casts(p["lhs"]).get("d")
+        elif p is not None and p.get("k") == "decl":
+            for v in p["vars"]:
+                if v.get("init") is not None and any(x is n for x in walk(v["init"])):
+                    d = v["d"]
+        if d is not None:
+            out.append((fld, d))
+    return out
+
+
+def id_keyed_containers(fb, cls, file):
+    """{counter field: {container field: (function, elem)}}: a *counter* is a field of the class from which some method draws a
+    fresh value (`x = ++F`, `x = F++`, `x = F.fetch_add(1)`); a container field of the class is *keyed by it* when that value
+    (followed through same-class helper calls that receive it as an argument) is part of what is inserted into the container.
+    Derived from dataflow, no name is assumed."""
+    out = {}
+
+    def inserts_of(f, is_id, depth, acc):
+        for e in f.stmts():
+            n = e.node
+            if n.get("k") == "mcall" and last(n.get("callee", "")) in INSERTERS and any(is_id(a) for a in n.get("args", [])):
+                c = field_of(n.get("obj"))
+                if c and c.startswith(cls + "::") and c.count("::") == cls.count("::") + 1:
+                    acc.setdefault(c, (f, e))
+            elif n.get("k") == "opcall" and n.get("op") == "[]" and n.get("memberop") and len(n["args"]) == 2 and is_id(n["args"][1]):
+                c = field_of(n["args"][0])
+                if c and c.startswith(cls + "::") and c.count("::") == cls.count("::") + 1:
+                    acc.setdefault(c, (f, e))
+            elif depth < 3:
+                for g in helper_defs(fb, f, n):
+                    for i, a in enumerate(n.get("args", [])):
+                        if is_id(a):
+                            inserts_of(g, lambda x, i=i: _mentions_parm(x, i), depth + 1, acc)
+    for f in fb.methods_of(cls):
+        if not f.ok or not f.file.endswith(file):
+            continue
+        for (fld, d) in fresh_id_decls(f, cls):
+            acc = out.setdefault(fld, {})
+            inserts_of(f, lambda x, d=d: _mentions_decl(x, d), 0, acc)
+    return dict((k, v) for (k, v) in out.items() if v)
+
+
+def emptying_events(fb, f, cont, depth=0):
+    """elements of f after which the container field `cont` is certainly empty: clear(); swap with / move into a local that is
+    freshly default-constructed; assignment of an empty value; a call of a same-class helper every path of which does one of these"""
+    out = []
+    decls = {}
+    for e in f.stmts():
+        if e.node.get("k") == "decl":
+            for v in e.node["vars"]:
+                decls[v["d"]] = (e, v)
+
+    def fresh_local(x, at):
+        """x names a local that is default-constructed and untouched on the way to `at`"""
+        x = strip_wrappers(x)
+        if x is None or x.get("k") != "var" or x.get("d") not in decls or x.get("parm") is not None:
+            return False
+        de, v = decls[x["d"]]
+        i = v.get("init")
+        if i is not None and not (i.get("k") in ("ctor", "ilist", "zero") and not [a for a in (i.get("args") or i.get("vals") or []) if not a.get("def")]):
+            return False
+        for e in f.stmts():
+            if e is de or e is at or "root" not in e.raw:
+                continue
+            if _mentions_decl(e.node, x["d"]) and (e.block is at.block and e.idx < at.idx or search(f, e, lambda y: y is at, eh=False) is not None) and elem_dominates(f, de, e):
+                return False
+        return True
+
+    def is_empty_value(v):
+        v = strip_wrappers(v)
+        while v is not None and v.get("k") == "ctor" and len([a for a in v.get("args", []) if not a.get("def")]) == 1 and v.get("copy"):
+            v = strip_wrappers(v["args"][0])
+        return v is not None and v.get("k") in ("ctor", "ilist", "zero") and not [a for a in (v.get("args") or v.get("vals") or []) if not a.get("def")]
+    for e in f.stmts():
+        n = e.node
+        k = n.get("k")
+        if k == "mcall" and last(n.get("callee", "")) == "clear" and field_of(n.get("obj")) == cont and strip_wrappers(n["obj"]).get("k") == "member":
+            out.append(e)
+        elif k == "mcall" and last(n.get("callee", "")) == "swap" and len(n.get("args", [])) == 1:
+            a, o = strip_wrappers(n["args"][0]), strip_wrappers(n.get("obj"))
+            if (field_of(a) == cont and a.get("k") == "member" and fresh_local(o, e)) or (field_of(o) == cont and o.get("k") == "member" and fresh_local(a, e)):
+                out.append(e)
+        elif k == "call" and last(n.get("callee", "")) == "swap" and len(n.get("args", [])) == 2:
+            a, o = strip_wrappers(n["args"][0]), strip_wrappers(n["args"][1])
+            if (field_of(a) == cont and a.get("k") == "member" and fresh_local(o, e)) or (field_of(o) == cont and o.get("k") == "member" and fresh_local(a, e)):
+                out.append(e)
+        elif k in ("opcall", "bin") and n.get("op") == "=" and "root" in e.raw:
+            lhs, rhs = (n["args"][0], n["args"][1]) if k == "opcall" else (n["lhs"], n["rhs"])
+            if strip_wrappers(lhs).get("k") == "member" and field_of(lhs) == cont and (is_empty_value(rhs) or fresh_local(rhs, e)):
+                out.append(e)
+        elif k == "decl":
+            # `auto old = std::move(_c);` — the standard containers are left empty by move construction
+            for v in n["vars"]:
+                i = v.get("init")
+                if i is not None and i.get("k") == "ctor" and i.get("copy") == "move" and len(i.get("args", [])) == 1 and (strip_wrappers(i["args"][0]) or {}).get("k") == "member" and field_of(i["args"][0]) == cont:
+                    out.append(e)
+        elif depth < 3 and k in ("mcall", "call"):
+            for g in helper_defs(fb, f, n):
+                ev = emptying_events(fb, g, cont, depth + 1)
+                if ev and search(g, ("entry",), "exit", stop=lambda x, ev=ev: x in ev, eh=False) is None:
+                    out.append(e)
+    return out
+
+
+def r13(ctx, r):
+    """'not before its deadline' across a restart.  Pending work is matched to its timer BY ID (collect pairs a heap item with the
+    record stored under the item's id; cancel looks the id up), so an id may be handed out a second time only when nothing keyed by
+    its first use is left: wherever the id counter is written with anything but an increment, every container of the class that is
+    keyed by ids drawn from that counter has been emptied — inside the same critical section when the counter is a lock-guarded
+    field (a schedule in between would otherwise meet the old entries), on every path before the rewind when it is an atomic.
+    A lazily purged container (the deadline heap keeps the items of cancelled timers until they come due) that survives the rewind
+    fires the new holder of the id at the OLD deadline."""
+    from ..cfg import elem_postdominates
+    fb, la = ctx.fb(), ctx.locks()
+    for (cls, file, mutex, min_conts) in ((TS, TSF, TSM, 2), (TW, TWF, TWM, 1)):
+        table = id_keyed_containers(fb, cls, file)
+        if not table or max(len(v) for v in table.values()) < min_conts:
+            raise AnalysisBroken("%s: the rule no longer finds the id counter and the containers keyed by it (found %s)" % (short(cls), dict((last(k), sorted(last(c) for c in v)) for k, v in table.items())))
+        for counter, conts in sorted(table.items()):
+            atomic = None
+            rewinds = []
+            for (f, e, n, kind) in access.accesses(fb, counter, [file]):
+                if e is None or (f.kind in ("ctor", "dtor") and f.cls == cls):
+                    continue
+                atomic = (n.get("t") or "").startswith("std::atomic")
+                p = f.nodes.get(f.parent.get(n["id"])) or {}
+                advance = (p.get("k") == "un" and p.get("op") in ("pre++", "post++")) or (p.get("k") == "mcall" and last(p.get("callee", "")) == "fetch_add" and (const_value(p["args"][0]) or 0) > 0)
+                if kind in ("write", "rw") and not advance:
+                    rewinds.append((f, e, p))
+            r.instance()
+            if not rewinds:
+                r.ok("%s is only ever incremented" % last(counter))
+                continue
+            for (f, e, p) in rewinds:
+                for cont, (sf, se) in sorted(conts.items()):
+                    r.instance()
+                    evs = emptying_events(fb, f, cont)
+                    if atomic:
+                        good = [x for x in evs if elem_dominates(f, x, e, eh=False)]
+                    else:
+                        good = [x for x in evs if (elem_dominates(f, x, e, eh=False) or elem_postdominates(f, x, e, eh=False)) and common.same_section(f, la, x, e, mutex)[0]]
+                    r.expect(bool(good), f, e, "id counter rewound, %s kept" % last(cont),
+                             "%s restarts id allocation (`%s`) but does not empty %s %s: %s keys its entries by ids drawn from that counter (%s, line %d), so what is left of a previous run is "
+                             "matched to the new timer that gets the same id — a stale deadline entry fires the new timer at the OLD deadline, before its own (early firing), or cancel/lookup hits the wrong timer%s"
+                             % (short(f.name), show(p)[:40], last(cont), "on every path before it" if atomic else "in the same critical section (%s held from one to the other)" % last(mutex), last(cont), short(sf.name), se.line,
+                                ("" if not evs else "; it is emptied at line %s, but not %s" % (", ".join(str(x.line) for x in evs), "before the rewind on every path" if atomic else "under one continuous hold of the lock"))),
+                             okdesc="%s: %s emptied %s `%s`" % (short(f.name), last(cont), "before" if atomic else "in the critical section of", show(p)[:30]))
+
+
 def run(ctx, ck):
     ck.run_rule("C08-R1", "lock tables of the timer service and the timing wheel", "A1 guarded-by", lambda r: r1(ctx, r))
     ck.run_rule("C08-R2", "collect erases before hand-out and only non-cancelled; wheel unlinks+erases before firing", "A5 + A2", lambda r: r2(ctx, r))
@@ -700,4 +1243,5 @@ def run(ctx, ck):
     ck.run_rule("C08-R10", "a firing handed out of the lock can no longer be cancelled 'successfully'", "A2 path rule + mark/test agreement between collect and cancel", lambda r: r10(ctx, r))
     ck.run_rule("C08-R11", "wheel: every hand-out is behind a test of the entry's deadline; re-inserting loops walk a detached chain", "A5 dominating facts + dataflow of the loop cursor", lambda r: r11(ctx, r))
     ck.run_rule("C08-R12", "service: cancellation is final (flag only set); periodic registration refuses a non-positive interval", "A10 who-may-write value rule + A5", lambda r: r12(ctx, r))
+    ck.run_rule("C08-R13", "the id counter is rewound only where every container keyed by its ids is emptied (same critical section)", "dataflow (id → container keys) + A1 same-section + A2", lambda r: r13(ctx, r))
     ck.run_rule("C08-R7", "condition-variable discipline (drain CV, tick CV)", "A1", lambda r: r7(ctx, r))
